@@ -185,12 +185,9 @@ impl DltMessage {
 //@|    requires self.writable(),
 //@|    ensures
 //@|        r is Ok,
-//@|        final(writer)@ == old(writer)@ + ser_msg(self@), // O:to_write.bytes
-//@   hint before `Ok(())`
-//@|    proof {
-//@|        lemma_flag_keep(self.standard_header.htyp, self.extended_header is Some);
-//@|        assert(writer@ =~= old(writer)@ + ser_msg(self@));
-//@|    }
+//@|        final(writer)@ =~= old(writer)@ + ser_msg(self@), // O:to_write.bytes
+//@   hint start
+//@|    proof { lemma_flag_keep(self.standard_header.htyp, self.extended_header is Some); }
 //@ end
 }
 
